@@ -239,6 +239,11 @@ type Interp struct {
 	// (loop indices, values computed before the loop). For an *ssa.Alloc of the
 	// enclosing function it answers with the content of the cell.
 	Unbound func(v ssa.Value) (Val, bool)
+	// Fixed (optional) imposes the value of an instruction of the function given
+	// to Call / RunRegion instead of computing it: the hypothesis of a table
+	// extraction ("the rune loaded here is 'n'") when the region executed contains
+	// the instruction that produces the hypothesised value.
+	Fixed func(v ssa.Value) (Val, bool)
 
 	// Halt can be set (e.g. from OnCall) to abandon the current run: every active
 	// Call returns at once with an empty value and Err stays nil.
@@ -415,6 +420,12 @@ func (it *Interp) exec(fr *frame, b, prev *ssa.BasicBlock, stop func(*ssa.BasicB
 				// deferred calls are irrelevant for the finite tables we extract
 			case *ssa.Go:
 			case ssa.Value:
+				if it.Fixed != nil {
+					if r, ok := it.Fixed(x); ok {
+						fr.env[x] = r
+						break
+					}
+				}
 				fr.env[x] = it.instr(fr, x)
 			}
 			if it.Err != nil {
@@ -658,6 +669,12 @@ func (it *Interp) instr(fr *frame, v ssa.Value) Val {
 		if r.K == KConst {
 			if bt, ok := x.Type().Underlying().(*types.Basic); ok && bt.Info()&types.IsInteger != 0 && r.C.Kind() == constant.Int {
 				return Const(r.C, x.Type())
+			}
+			// string(r) of a constant rune / byte
+			if bt, ok := x.Type().Underlying().(*types.Basic); ok && bt.Info()&types.IsString != 0 && r.C.Kind() == constant.Int {
+				if i, exact := constant.Int64Val(r.C); exact {
+					return Const(constant.MakeString(string(rune(i))), x.Type())
+				}
 			}
 		}
 		if r.K == KSym {
